@@ -34,6 +34,16 @@ def _key_func(ctx: Ctx, f: Func) -> Optional[Func]:
     return None
 
 
+FuncNodes = (ast.FunctionDef, ast.AsyncFunctionDef, ast.Lambda)
+
+
+def _ancestors(m, node: ast.AST, stop: ast.AST):
+    p_ = m.parent_of(node)
+    while p_ is not None and p_ is not stop:
+        yield p_
+        p_ = m.parent_of(p_)
+
+
 @rule("SIB-EXPORT", ["C17"], floor=20, section="3.7")
 def sib_export(ctx: Ctx) -> List[Ob]:
     """DOT and Mermaid exporters agree: node loop and edge loop range over the same iteration, keys come from one key function (data_id iff unique_nodes), the edge loop skips exactly the edges leaving an excluded root and emits one edge per node; RDF adds one has_child triple per child with a parent"""
@@ -179,6 +189,24 @@ def sib_export(ctx: Ctx) -> List[Ob]:
             r = resolve_expr(ctx, f, eys[0], eys[0].value, keep=[kn])
             ok = any(f"{{{kn}({ev}._parent)}} -> {{{kn}({ev})}}" in norm(x) for x in ast.walk(r) if isinstance(x, ast.JoinedStr))
         O(f, "node_to_dot: edge statement `key(parent) -> key(child)`", ok, "edge direction parent -> child", el)
+    # one edge per tree node - also for the second and later clones, whose *node definition* is skipped: the edge
+    # emission must not sit behind the seen-this-key test (whatever the loop structure)
+    for q, flag in specs:
+        f = m.func(q)
+        emits = [c for c in ast.walk(f.node) if isinstance(c, ast.Call) and norm(c.func) == "edge_mapper"]
+        if q == "node_to_dot":
+            emits = [y for y in ast.walk(f.node) if isinstance(y, ast.Yield) and y.value is not None and "->" in norm(y.value)]
+        emits = [c for c in emits if not any(isinstance(p_, FuncNodes) and p_ is not f.node for p_ in _ancestors(m, c, f.node))]
+        okd = None
+        bad_ = []
+        for c in emits:
+            for e_, p_ in path_conds(ctx, f, c):
+                if isinstance(e_, ast.Compare) and len(e_.ops) == 1 and isinstance(e_.ops[0], (ast.In, ast.NotIn)) and isinstance(e_.comparators[0], ast.Name):
+                    bad_.append(("" if p_ else "not ") + norm(e_))
+        if emits:
+            okd = not bad_
+        O(f, f"{q}: the edge of a node is emitted whether or not its key was seen before (clones keep their edges)", okd,
+          f"edge emission under {bad_}: the second and later clones of a data_id lose their incoming edge")
     # mermaid specifics
     if "_node_to_mermaid_flowchart_iter" in shapes:
         f, kn, nl, el, nv, ev = shapes["_node_to_mermaid_flowchart_iter"]
@@ -693,6 +721,25 @@ def diff(ctx: Ctx) -> List[Ob]:
                     ok = False  # one-sided children are decided by something else than the first node's own children
     obs.append(ctx.tri("DIFF", ["C11"], cmp_, "children only in the second node are found by data_id against the first node's children", None, ok,
                        "added children are those whose data_id the first side lacks"))
+    # matched children are compared recursively whatever their position and whatever `ordered` says
+    recs_ = [c for c in ast.walk(cmp_.node) if isinstance(c, ast.Call) and isinstance(c.func, ast.Name) and c.func.id == cmp_.name]
+    okr_ = None
+    if recs_:
+        dep = []
+        for c in recs_:
+            for e_, p_ in _pc(ctx, cmp_, c):
+                if any(isinstance(x, ast.Name) and x.id == "ordered" for x in ast.walk(e_)):
+                    dep.append(("" if p_ else "not ") + norm(e_))
+        # early exits of the round that depend on `ordered` skip the recursion as well
+        for lp_ in [n for n in iter_own(cmp_.node) if isinstance(n, ast.For) and any(any(c is x for x in ast.walk(n)) for c in recs_)]:
+            for x in ast.walk(lp_):
+                if isinstance(x, (ast.Continue, ast.Break, ast.Return)):
+                    for e_, p_ in _pc(ctx, cmp_, x):
+                        if any(isinstance(y, ast.Name) and y.id == "ordered" for y in ast.walk(e_)):
+                            dep.append(f"{type(x).__name__.lower()} under " + ("" if p_ else "not ") + norm(e_))
+        okr_ = not dep
+    obs.append(ctx.tri("DIFF", ["C11"], cmp_, "matched children are compared recursively independent of `ordered` and of their position", None, okr_,
+                       f"the recursion runs only under {dep if recs_ and dep else ''}: children below a matched node that changed its position would be missing from the result"))
     fc = [c for c in ast.walk(cmp_.node) if isinstance(c, ast.Call) and norm(c.func) == "_find_child"]
     O(cmp_, "peers of first-tree children are searched among the second node's children", len(fc) == 1 and norm(fc[0].args[0]) == f"{p1}.children")
     om = [c for c in ast.walk(cmp_.node) if isinstance(c, ast.Call) and isinstance(c.func, ast.Attribute) and c.func.attr == "set_meta"
@@ -754,6 +801,10 @@ def diff(ctx: Ctx) -> List[Ob]:
                 # unless the loop does not look at DC.REMOVED at all
                 ok = None if any("DC.REMOVED" in norm(x) for x in ast.walk(lp)) else False
                 why = f"guard {[canon_list(e) for e in guard]} / MOVED_TO receiver `{norm(recv)}`"
+                all_conds = [e for e, pol in path_conds(ctx, f, here[0]) if id(getattr(e, "_orig", e)) in {id(x) for x in ast.walk(lp)}]
+                if not all_conds:
+                    ok = False  # witness: MOVED_HERE is set on every added node (or once per clone), whatever its clones are marked
+                    why = "MOVED_HERE is set unconditionally inside the move loop"
     obs.append(ctx.tri("DIFF", ["C11"], f, "a moved-here node is an added node with a REMOVED clone, which becomes moved-away", None, ok,
                        why + ": moves only re-label members of the added/removed sets"))
     from .util import find_under
